@@ -56,6 +56,16 @@ def _fit(job):
     n, pattern, vtype, trunc, seed = job
     rs = np.random.RandomState(seed)
     df = V.random_table(rs, n, pattern, nrow=1100 if seed % 53 == 7 else None)      # now and then a table of more than 1000 rows
+    if seed % 9 == 4 and pattern != 'exact-monotone':
+        # numeric tables come in every numeric type: small unsigned / signed integers (counts, codes, sensor readings), single precision
+        lo, hi = float(df.to_numpy().min()), float(df.to_numpy().max())
+        kind = ('uint8', 'uint16', 'int8', 'float32')[(seed // 9) % 4]
+        if kind == 'float32':
+            df = df.astype('float32')
+        else:
+            top = {'uint8': 250.0, 'uint16': 60000.0, 'int8': 120.0}[kind]
+            off = -120.0 if kind == 'int8' else 0.0
+            df = ((df - lo) / (hi - lo) * (top - off) + off).round().astype(kind)
     rec = {'n': n, 'vtype': vtype, 'trunc': trunc, 'trees': [], 'w': [], 'admissible': [], 'err': '',
            'src': 'fit:' + pattern}
     try:
